@@ -146,11 +146,13 @@ impl DepsGraph {
             None => return,
         };
 
+        // Mark the node before visiting its dependents so that cycles are cut
+        sort_data.visited.insert(key.into_owned());
+
         for rdep in node.rdeps.iter() {
             self.visit(sort_data, rdep.as_borrowed());
         }
 
-        sort_data.visited.insert(key.into_owned());
         if let BorrowedDependency::Asset(key) = key {
             sort_data.list.push(key.clone());
         }
